@@ -831,6 +831,31 @@ class KafkaClient(object):
 
         returnValue(self._handle_responses(resps, fail_on_error, callback, group))
 
+    @staticmethod
+    def _until_cancelled(d):
+        """
+        Wait for *d*, but let a ``cancel()`` end the wait.
+
+        Version discovery asks one server after the other: cancelling it only
+        moves it on to the next server. A request waiting for it directly is
+        therefore not released by a cancel; it carries on once discovery
+        completes and is sent although its caller gave up on it.
+
+        :returns:
+            a `Deferred` that fires with the result of *d*, or fails with
+            `twisted.internet.defer.CancelledError` as soon as it is cancelled
+            (the cancel is passed on to *d*, whose result is then dropped).
+        """
+        waiter = defer.Deferred(lambda _: d.cancel())
+
+        def relay(result):
+            if not waiter.called:
+                waiter.callback(result)
+            # else: cancelled meanwhile, nobody is waiting for the result
+
+        d.addBoth(relay)
+        return waiter
+
     @inlineCallbacks
     def fetch_api_versions(self) -> ApiVersionResponse:
         """
@@ -870,7 +895,7 @@ class KafkaClient(object):
         Get the version of the given API key.
         """
         if self._api_versions is None:
-            yield self.fetch_api_versions()
+            yield self._until_cancelled(self.fetch_api_versions())
         if self._api_versions == 0:
             return 0
         for api_version in self._api_versions:
